@@ -430,4 +430,31 @@ theorem reachable_run {s : State} (h : Reachable s) (ops : List Op) : Reachable 
     · exact ih h
 
 
+/-! ### ChainedCleaner -/
+
+theorem chainedFrom_fst (err n : Nat) (outs : List Nat) :
+    (chainedFrom err n outs).1 = if err = 0 then (outs.find? (· ≠ 0)).getD 0 else err := by
+  induction outs generalizing err n with
+  | nil => simp [chainedFrom]
+  | cons o rest ih =>
+    simp only [chainedFrom, ih]
+    by_cases he : err = 0
+    · by_cases ho : o = 0 <;> simp [he, ho]
+    · simp [he]
+
+theorem chainedFrom_fst_zero_iff (err n : Nat) (outs : List Nat) :
+    (chainedFrom err n outs).1 = 0 ↔ err = 0 ∧ ∀ o, o ∈ outs → o = 0 := by
+  induction outs generalizing err n with
+  | nil => simp [chainedFrom]
+  | cons o rest ih =>
+    simp only [chainedFrom, ih, List.mem_cons]
+    by_cases he : err = 0
+    · simp [he]
+    · simp [he]
+
+theorem chainedFrom_snd (err n : Nat) (outs : List Nat) : (chainedFrom err n outs).2 = n + outs.length := by
+  induction outs generalizing err n with
+  | nil => simp [chainedFrom]
+  | cons o rest ih => simp only [chainedFrom, ih, List.length_cons]; omega
+
 end BbRe.Lemmas.Idle
